@@ -66,13 +66,6 @@ Definition src_call2 (P : prog) (o : op2) (sd : side) (m : string) (self : rv) (
   | None => None
   end.
 
-Definition arg_of (e : ev) : string * list rv :=
-  match e with
-  | Next v => ("next", [VItem v])
-  | Err x => ("error", [VErrv x])
-  | Done => ("complete", [])
-  end.
-
 (* One call on the observer of one input: the shared content afterwards (seen through that observer) and the
    notifications sent on are the machine's.  Terminals included: the cell outlives the observer that is consumed. *)
 Definition step2_agrees (P : prog) (o : op2) : Prop :=
